@@ -303,7 +303,12 @@ var hostile = []string{"\"", "\\", "/", "/*", "*/", "//", "|", "\n", "\r\n", "\t
 
 func genRandom() *rapid.Generator[string] {
 	return rapid.Custom(func(t *rapid.T) string {
-		switch rapid.IntRange(0, 3).Draw(t, "kind") {
+		switch rapid.IntRange(0, 4).Draw(t, "kind") {
+		case 4:
+			// the same faulty line many times over: diagnostics by the hundred
+			line := strings.Join(rapid.SliceOfN(rapid.OneOf(rapid.SampledFrom(hostile), rapid.SampledFrom(alphabet)), 1, 5).Draw(t, "line"), rapid.SampledFrom([]string{"", " "}).Draw(t, "linesep"))
+			n := rapid.SampledFrom([]int{2, 10, 99, 100, 101, 150, 400}).Draw(t, "repeat")
+			return strings.Repeat(line+"\n", n)
 		case 0:
 			return rapid.String().Draw(t, "s")
 		case 1:
